@@ -152,8 +152,8 @@ Definition deep_plan (k : kind) : plan :=
   | KList | KDict | KSet | KPyList | KPyDict | KPySet
              => mkplan false true  false true  AAll      (* copy._reconstruct / _deepcopy_list / _deepcopy_dict *)
   | KArray   => mkplan false true  false true  AAll      (* _array.__deepcopy__: memo[id(self)] = copy_ first *)
-  | KNdarray => mkplan false false false true  AAll      (* _numpy_array.__deepcopy__ *)
-  | KTree    => mkplan false false false true  AAll      (* PrimitiveTree.__deepcopy__ *)
+  | KNdarray => mkplan false true  false true  AAll      (* _numpy_array.__deepcopy__: memo[id(self)] = copy_ first *)
+  | KTree    => mkplan false true  false true  AAll      (* PrimitiveTree.__deepcopy__: memo[id(self)] = new first *)
   | KBuf     => mkplan false false false true  AAll
   | KFit     => mkplan false false false false ANone     (* Fitness.__deepcopy__: wvalues only *)
   | KCFit    => mkplan false false false false (AOnly cv_name)  (* + deepcopy(constraint_violation) *)
